@@ -79,7 +79,7 @@ BOUNDS = {
                   "{after, before} + 23 statement binders x {after, before}; x container {body, top-level def} x name {present, absent} x strict on/off",
         "reserved": "4 names x 6 entry points x 3 enable_loop configurations; 4 names x 15 assignment forms x 3 scopes x 3 configurations",
         "kwargs": "10 positions x 4 entry points x 3 argument sets",
-        "sentinel": "7 names (6 builtins + control) x {render argument, page argument, <% %>} x {UNDEFINED, None, default object} x {body, def} x 6 read forms (+strict for bare reads)",
+        "sentinel": "6 names (5 builtins + control) x {render argument, page argument, <% %>} x {UNDEFINED, None, default object} x {body, def} x 6 read forms (+strict for bare reads)",
         "attrs": "15 multi-expression tags x placements {body, def, anonymous block, call body} x {all present, each name absent} x strict on/off",
         "cached": "6 cached sections x 4 key forms x 4 render sequences x strict on/off",
         "imports": "one sequence per run: 28 reader operations, 20 binder operations, the readers again, the binders again (96 operations in one process)",
@@ -92,7 +92,7 @@ BOUNDS = {
         "reread": "as quick x container {body, top-level def, nested def, anonymous block, call body}",
         "reserved": "as quick + 5 scopes",
         "kwargs": "as quick",
-        "sentinel": "7 names (6 builtins + control) x {render argument, page argument, <% %>} x {UNDEFINED, None, default object} x {body, def} x 6 read forms (+strict for bare reads)",
+        "sentinel": "6 names (5 builtins + control) x {render argument, page argument, <% %>} x {UNDEFINED, None, default object} x {body, def} x 6 read forms (+strict for bare reads)",
         "attrs": "15 multi-expression tags x placements {body, def, anonymous block, call body} x {all present, each name absent} x strict on/off",
         "cached": "6 cached sections x 4 key forms x 4 render sequences x strict on/off",
         "imports": "one sequence per run: 28 reader operations, 20 binder operations, the readers again, the binders again (96 operations in one process)",
@@ -1023,7 +1023,7 @@ SENT_VALUES = {"U": "UNDEFINED", "None": "None", "D": "dfl"}
 
 
 def sentinel_cases(al):
-    names = SENT_BUILTINS + ([al.builtin] if al.builtin not in SENT_BUILTINS else []) + [al.name]
+    names = SENT_BUILTINS + [al.name]  # the same structure for every seed
     for name in names:
         for bind in ("ctx", "page", "assign"):
             for val in SENT_VALUES:
